@@ -931,3 +931,111 @@ SUBS = [
     Sub("mutation", check_mutation, gen=mutation_cases, quick=600, thorough=6000, shards=4),
     Sub("walpole", check_walpole, gen=walpole_cases, quick=300, thorough=3000, shards=2),
 ]
+
+
+# ------------------------------------------------------------------------------------------
+# (added by the lead, round 8) the stiffness of an Anisotropic law handed over as an INTEGER-typed array (whole numbers in MPa are a
+# natural way to write one): same law as the same numbers given as floats, in both notations, through the constructor and Set_C,
+# with material axes aligned or rotated - the converted shear terms (sqrt 2, 2) are not whole numbers
+
+
+@st.composite
+def integer_stiffness_cases(draw):
+    dim = draw(st.sampled_from([2, 2, 3]))
+    n = 6 if dim == 3 else draw(st.sampled_from([3, 3, 6]))
+    # an SPD matrix with whole-number entries: L L^T + k I with integer L (lower triangular, off-diagonal terms everywhere)
+    L = [[draw(st.integers(-3, 3)) if j < i else (draw(st.integers(1, 4)) if j == i else 0) for j in range(n)] for i in range(n)]
+    return dict(dim=dim, n=n, L=L, k=draw(st.integers(1, 5)), dtype=draw(st.sampled_from(["int64", "int32", "int16"])),
+                voigt=draw(st.booleans()), via=draw(st.sampled_from(["ctor", "Set_C"])), angle=draw(st.sampled_from([0, 0, 30, 77])),
+                scale=draw(st.sampled_from([1, 100, 1000])))
+
+
+def check_integer_stiffness(case, rec):
+    dim, n = case["dim"], case["n"]
+    L = np.array(case["L"], dtype=np.int64)
+    Ci = (L @ L.T + case["k"] * np.eye(n, dtype=np.int64)) * int(case["scale"])
+    dtype = case["dtype"] if (case["dtype"] != "int16" or np.abs(Ci).max() <= 30000) else "int32"  # the numbers must fit the type
+    th = np.deg2rad(case["angle"])
+    a1 = np.array([np.cos(th), np.sin(th), 0.0])
+    a2 = np.array([-np.sin(th), np.cos(th), 0.0])
+    if dim == 2:
+        a1, a2 = a1[:2], a2[:2]
+    voigt = bool(case["voigt"])
+    sig = dict(dim=dim, n=n, dtype=dtype, notation="voigt" if voigt else "km", via=case["via"], rotated=case["angle"] != 0)
+    rec.label(f"intC:n{n}_dim{dim}", "intC:" + dtype, "intC:" + ("voigt" if voigt else "km"), "intC:" + case["via"])
+
+    def build(arr):
+        if case["via"] == "ctor":
+            return Anisotropic(dim, arr, voigt, a1.copy(), a2.copy())
+        law = Anisotropic(dim, np.eye(n), False, a1.copy(), a2.copy())
+        law.Set_C(arr, voigt)
+        return law
+
+    lawI = build(Ci.astype(dtype))
+    lawF = build(Ci.astype(float))
+    CI, CF = np.asarray(lawI.C, float), np.asarray(lawF.C, float)
+    SI, SF = np.asarray(lawI.S, float), np.asarray(lawF.S, float)
+    rec.close(CI - CF, amax(CF), TOL, "integer_input_same_C", f"Anisotropic(dim={dim}) from a {n}x{n} {dtype} matrix ({sig['notation']}, "
+              f"{case['via']}): C differs from the law built from the same numbers as floats", **sig)
+    rec.close(SI - SF, amax(SF), TOL, "integer_input_same_S", "compliance of the law built from an integer-typed matrix", **sig)
+    if case["angle"] == 0:
+        # closed form in the material axes: Kelvin-Mandel weights on the Voigt entries, then the 2D block
+        Ckm = Ci.astype(float) * (voigt_factor(n) if voigt else 1.0)
+        if dim == 2 and n == 6:
+            Ckm = Ckm[np.ix_([0, 1, 5], [0, 1, 5])]
+        rec.close(CI - Ckm, amax(Ckm), TOL, "integer_input_closed_form", f"C of the law vs the {'converted ' if voigt else ''}matrix that was given", **sig)
+    off = Ci[: (2 if n == 3 else 3), (2 if n == 3 else 3):]
+    rec.nontrivial(bool(np.abs(off).max() > 0))
+
+
+SUBS.append(Sub("integer_stiffness", check_integer_stiffness, gen=integer_stiffness_cases, quick=300, thorough=3000, shards=2))
+
+
+# ------------------------------------------------------------------------------------------
+# (added by the lead, round 8) parameter FIELDS (one value per element) typed as integers, moduli written in Pa: same law as the same
+# numbers as floats (the products inside the laws - E**2, E1 E2 E3 - leave the int64 range), and C S = I
+
+
+def enum_integer_parameters(tier):
+    for law in ("iso", "ti", "ortho"):
+        for dim in (2, 3):
+            for unit in (1, 1000, 1000000000):  # GPa written as whole numbers in GPa, MPa, Pa
+                for dtype in ("int64", "int32"):
+                    if dtype == "int32" and unit > 1000:
+                        continue
+                    yield dict(law=law, dim=dim, unit=unit, dtype=dtype)
+
+
+def check_integer_parameters(case, rec):
+    from EasyFEA.Models.Elastic import Isotropic, Orthotropic, TransverselyIsotropic
+
+    law, dim, unit, dt = case["law"], case["dim"], int(case["unit"]), case["dtype"]
+    sig = dict(law=law, dim=dim, unit=unit, dtype=dt)
+    rec.label("intP:" + law, f"intP:unit{unit}", "intP:" + dt)
+    E1 = np.array([210, 70, 130]) * unit
+    E2 = np.array([180, 70, 10]) * unit
+    E3 = np.array([60, 50, 12]) * unit
+    G = np.array([80, 26, 5]) * unit
+
+    def build(cast):
+        c = lambda a: cast(a)  # noqa: E731
+        if law == "iso":
+            return Isotropic(dim, c(E1), 0.3, planeStress=False)
+        if law == "ti":
+            return TransverselyIsotropic(dim, c(E1), c(E2), c(G), 0.25, 0.3, axis_l=(1, 0, 0), axis_t=(0, 1, 0), planeStress=False)
+        return Orthotropic(dim, c(E1), c(E2), c(E3), c(G), c(G), c(G), 0.1, 0.12, 0.15, planeStress=False)
+
+    lawI = build(lambda a: a.astype(dt))
+    lawF = build(lambda a: a.astype(float))
+    CI, CF = np.asarray(lawI.C, float), np.asarray(lawF.C, float)
+    SI, SF = np.asarray(lawI.S, float), np.asarray(lawF.S, float)
+    rec.close(CI - CF, amax(CF), TOL, "integer_fields_same_C", f"{law} dim={dim}: moduli given as {dt} fields (unit {unit}): C differs from the law built "
+              "from the same numbers as floats", **sig)
+    rec.close(SI - SF, amax(SF), TOL, "integer_fields_same_S", "compliance", **sig)
+    n = CI.shape[-1]
+    rec.close(CI @ SI - np.eye(n), 1.0, 1e-10, "integer_fields_inverse", f"{law} dim={dim}: C S differs from the identity for moduli given as {dt} fields", **sig)
+    rec.nontrivial(True)
+
+
+SUBS.append(Sub("integer_parameters", check_integer_parameters, enum=enum_integer_parameters,
+                doc="law class x dimension x unit of the moduli (GPa, MPa, Pa as whole numbers) x integer type of the per-element fields"))
